@@ -233,7 +233,7 @@ def increment(check: Check) -> None:
             return "xp"
         if t[0] == "sub" and t[1] == ("param", mx):
             return "maxp"
-        if t == ("param", pos) or (t[0] == "phi" and ("param", pos) in t[1]):
+        if t == ("param", pos) or (t[0] == "phi" and ("param", pos) in t[1]) or (t[0] == "ifexp" and ("param", pos) in (t[2], t[3])):
             return "pos"
         return None
 
@@ -271,11 +271,36 @@ def increment(check: Check) -> None:
     ok = any(r.term(n.ast.value, n) == ("binop", "-", ("call", ("global", "len"), (("param", x),), ()), ("const", 1)) and
              any(r.term(g, gn) == ("cmp", ("is",), (("param", pos), ("const", None))) and pol for g, pol, gn in cfg.must_guards(n)) for n in dflt)
     check.require(ok, "G8", "Operation.increment/default-position", "without a position the last digit is incremented (last input varies fastest)", loc(fn))
-    # overflow of digit 0 reports False
-    rets = [(n, r.term(n.ast.value, n)) for n in cfg.stmt_nodes() if isinstance(n.ast, ast.Return) and n.ast.value is not None]
-    is_pos = lambda z: z == ("param", pos) or (z[0] == "phi" and ("param", pos) in z[1])  # noqa: E731
-    ok = any(any(s[0] == "cmp" and s[1] == ("!=",) and is_pos(s[2][0]) and s[2][1] == ("const", 0) for s in walk(t)) for _, t in rets)
-    check.require(ok, "G8", "Operation.increment/overflow", "when digit 0 overflows the counter reports that it did not increment", loc(fn))
+    # the reported result: True after an increment, False when digit 0 overflows, the carry's result otherwise
+    from ..guards import UNKNOWN
+
+    bad = []
+    rows = 0
+    for posv, xp, maxp in itertools.product(range(0, 3), range(0, 3), range(0, 3)):
+        env = {"x_nonempty": True, "pos": posv, "xp": xp, "maxp": maxp}
+        ev = RoleEval(r, classify)
+        for pa in paths(cfg, first, ev, env, set()):
+            rows += 1
+            end = [n_ for n_ in pa if n_.kind == "stmt" and isinstance(n_.ast, ast.Return)]
+            if not end or end[-1].ast.value is None:
+                bad.append(("no result", env))
+                continue
+            pr = PathResolver(p, fn, pa)
+            t = pr.at(end[-1].ast.value, pr.index_of(end[-1]))
+            is_carry = t[0] == "call" and t[1] == ("global", "fuzzylite.operation.Operation.increment")
+            val = None if is_carry else RoleEval(r, lambda tt, e: "pos" if tt == ("param", pos) else None).eval_term(t, {"pos": posv})
+            if xp < maxp:
+                want = True
+            elif posv == 0:
+                want = False
+            else:
+                want = "carry"
+            got = "carry" if is_carry else (val if val is not UNKNOWN else "unknown")
+            if got != want:
+                bad.append(({"position": posv, "x[p]": xp, "max[p]": maxp}, f"returns {got}, specified {want}"))
+    check.require(not bad, "G8", "Operation.increment/overflow",
+                  "the counter reports True after incrementing a digit, the carry's result when it carries, and False when digit 0 overflows"
+                  if not bad else f"reported result disagrees with the specification: {bad[:2]}", loc(fn), {"rows": rows}, exhaustive=True, cases=rows)
 
 
 # ------------------------------------------------------------------------------------------------ W4
@@ -316,7 +341,9 @@ def write_plumbing(check: Check) -> None:
     check.require(col_ok, "W4", "FldExporter.write/columns", "input variable i receives column i of the table"
                   if col_ok else f"assignment is {show(assigns[0][2])}.value = {show(assigns[0][3])}" if assigns else "no assignment", loc(fn))
     # output assembly
-    apps = [(n, c, r.term(c.args[0], n)) for n, c in cfg.find_calls("values.append")] if True else []
+    stacked = {x.id for n_, c_ in cfg.all_calls() if r.term(c_.func, n_) == ("global", "numpy.hstack") for x in ast.walk(c_) if isinstance(x, ast.Name)}
+    apps = [(n, c, r.term(c.args[0], n)) for n, c in cfg.find_calls(".append")
+            if isinstance(c.func.value, ast.Name) and c.func.value.id in stacked and c.args]  # type: ignore[union-attr]
     ins = [n for n, c, t in apps if path_of(t) == f"{eng}.input_values"]
     outs = [n for n, c, t in apps if path_of(t) == f"{eng}.output_values"]
 
@@ -365,13 +392,25 @@ def header_agreement(check: Check) -> None:
     cfg = r.cfg
     eng = fn.params[1].name
     sites = []
-    for n in cfg.stmt_nodes():
-        if isinstance(n.ast, (ast.AugAssign, ast.Expr)):
-            src = unparse(n.ast)
-            which = "in" if f"{eng}.input_variables" in src else ("out" if f"{eng}.output_variables" in src else None)
-            if which and ".name" in src:
-                gs = [(path_of(r.term(g, gn)), pol) for g, pol, gn in cfg.must_guards(n)]
-                sites.append((which, n, gs))
+    for coll, which in ((f"{eng}.input_variables", "in"), (f"{eng}.output_variables", "out")):
+        # (a) a comprehension over the collection taking .name of each element
+        for n in cfg.stmt_nodes():
+            for e in cfg.exprs_of(n):
+                for x in ast.walk(e):
+                    if isinstance(x, (ast.ListComp, ast.GeneratorExp)) and len(x.generators) == 1 and unparse(x.generators[0].iter) == coll and \
+                            isinstance(x.elt, ast.Attribute) and x.elt.attr == "name" and isinstance(x.generators[0].target, ast.Name) and \
+                            unparse(x.elt.value) == x.generators[0].target.id:
+                        gs = [(path_of(r.term(g, gn)), pol) for g, pol, gn in cfg.must_guards(n)]
+                        sites.append((which, n, gs))
+        # (b) a loop over the collection appending element.name
+        for h_, base_, d_ in loops_over(r, lambda b_: is_path(b_, coll)):
+            for n in cfg.loop_body(h_):
+                for c_ in cfg.calls_in(n):
+                    if isinstance(c_.func, ast.Attribute) and c_.func.attr == "append" and c_.args:
+                        t_ = r.term(c_.args[0], n)
+                        if t_[0] == "attr" and t_[2] == "name" and t_[1][0] == "elem" and d_ == "forward":
+                            gs = [(path_of(r.term(g, gn)), pol) for g, pol, gn in cfg.must_guards(h_)]
+                            sites.append((which, h_, gs))
     ins = [s for s in sites if s[0] == "in"]
     outs = [s for s in sites if s[0] == "out"]
     ok = len(ins) == 1 and len(outs) == 1 and ins[0][2] == [("self.input_values", True)] and outs[0][2] == [("self.output_values", True)]
@@ -395,7 +434,9 @@ def reader(check: Check) -> None:
         raise AnalysisError("FldExporter.write_from_reader: line loop / skip parameter not recognised")
     h = loops[0]
     body = cfg.loop_body(h)
-    apps = [n for n, c in cfg.find_calls(".append") if n in body]
+    written = {x.id for n_, c_ in cfg.all_calls() if isinstance(c_.func, ast.Attribute) and c_.func.attr == "write" and r.term(c_.func.value, n_) == ("param", "self")
+               for x in ast.walk(c_) if isinstance(x, ast.Name)}
+    apps = [n for n, c in cfg.find_calls(".append") if n in body and isinstance(c.func.value, ast.Name) and c.func.value.id in written]  # type: ignore[union-attr]
 
     def is_line(t: Term) -> bool:
         return any(s[0] == "elem" for s in walk(t)) and not any(s[0] == "index" for s in walk(t))
@@ -407,8 +448,8 @@ def reader(check: Check) -> None:
             return "skip"
         if t[0] == "call" and t[1][0] == "attr" and t[1][2] == "strip" and is_line(t[1][1]):
             return "nonblank"
-        if t[0] == "cmp" and t[1] == ("==",) and t[2][1] == ("const", "#") and t[2][0][0] == "sub" and const_value(t[2][0][2]) == 0:
-            return "comment"
+        if t[0] == "sub" and const_value(t[2]) == 0 and t[1][0] == "call" and t[1][1][0] == "attr" and t[1][1][2] == "strip" and is_line(t[1][1][1]):
+            return "first_char"
         if t[0] == "call" and t[1][0] == "attr" and t[1][2] == "startswith" and t[2] == (("const", "#"),):
             return "comment"
         return None
@@ -421,8 +462,8 @@ def reader(check: Check) -> None:
             if not nonblank and comment:
                 continue
             ev = RoleEval(r, classify)
-            env = dict(order, nonblank=nonblank, comment=comment)
-            may, must = simulate(cfg, body_entry(h), ev, env, set(apps), outside)
+            env = dict(order, nonblank=nonblank, comment=comment, first_char="#" if comment else "a")
+            may, must = simulate(cfg, body_entry(h), ev, env, set(apps), outside, skip_loops=True)
             rows += 1
             want = not (env["i"] < env["skip"]) and nonblank and not comment
             if bool(must) != want or may != must:
